@@ -80,33 +80,39 @@ are: ctx done iff the start context has been cancelled, the next undrawn token, 
 def envMatches (s : St) (env : Env) : Bool :=
   env.ctxDone == s.startCtxDone && env.tok == s.toks.head? && env.timerWins
 
-def step (v : Variant) (s : St) : Event → St
-  | .wait env createOk delay =>
-    if s.phase != .starting || !envMatches s env then s else
-    let r := waitV v s.waiter env
-    if !r.ok then
-      -- `ok := waiter.Wait(startCtx); if !ok { err = startCtx.Err(); return }` / the `for` condition fails
-      { s with waiter := r.w, phase := .done }
-    else
-      let s := { s with waiter := r.w, toks := s.toks.tail, consumed := s.consumed + 1 }
-      if s.started == 0 then
-        -- the first instance is created synchronously
-        if createOk then
-          { s with started := 1, created := s.created ++ [⟨0, env.ret + delay, true⟩], running := s.running ++ [0] }
-        else
-          { s with sawCreateFailed := true, phase := .done }
+/-- one `waiter.Wait(startCtx)` call of the start loop and what the loop does with its result -/
+def stepWait (v : Variant) (s : St) (env : Env) (createOk : Bool) (delay : Nat) : St :=
+  if s.phase != .starting || !envMatches s env then s else
+  let r := waitV v s.waiter env
+  if !r.ok then
+    -- `ok := waiter.Wait(startCtx); if !ok { err = startCtx.Err(); return }` / the `for` condition fails
+    { s with waiter := r.w, phase := .done }
+  else
+    let s := { s with waiter := r.w, toks := s.toks.tail, consumed := s.consumed + 1 }
+    if s.started == 0 then
+      -- the first instance is created synchronously
+      if createOk then
+        { s with started := 1, created := s.created ++ [⟨0, env.ret + delay, true⟩], running := s.running ++ [0] }
       else
-        -- `id := started; go func() { runRes <- …runNewInstance(runCtx, …, id, deps) }()`; `started++`
-        let id := s.started
-        { s with started := s.started + 1, created := s.created ++ [⟨id, env.ret + delay, createOk⟩],
-                 running := if createOk then s.running ++ [id] else s.running,
-                 sawCreateFailed := s.sawCreateFailed || !createOk }
+        { s with sawCreateFailed := true, phase := .done }
+    else
+      -- `id := started; go func() { runRes <- …runNewInstance(runCtx, …, id, deps) }()`; `started++`
+      let id := s.started
+      { s with started := s.started + 1, created := s.created ++ [⟨id, env.ret + delay, createOk⟩],
+               running := if createOk then s.running ++ [id] else s.running,
+               sawCreateFailed := s.sawCreateFailed || !createOk }
+
+/-- `Run` of instance `id` returns: with a context error only if the RUN context is done (instances do not see the start
+context) -/
+def stepExit (s : St) (id : Nat) (reason : ExitReason) : St :=
+  if reason == .cancelled && !s.runCtxDone then s else { s with running := s.running.erase id }
+
+def step (v : Variant) (s : St) : Event → St
+  | .wait env createOk delay => stepWait v s env createOk delay
   | .outOfAmmoResult => { s with sawOutOfAmmo := true, startCtxDone := true }
   | .rpsFinished => { s with sawRpsFinished := true, startCtxDone := true }
   | .runCancel => { s with sawRunCancelled := true, runCtxDone := true, startCtxDone := true }
-  | .instanceExit id reason =>
-    -- an instance returns with a context error only if the RUN context is done (instances do not see the start context)
-    if reason == .cancelled && !s.runCtxDone then s else { s with running := s.running.erase id }
+  | .instanceExit id reason => stepExit s id reason
 
 def run (v : Variant) (s : St) (evs : List Event) : St := evs.foldl (step v) s
 
